@@ -251,7 +251,8 @@ def check(run):
                 "handler nesting depth per block, acceptance of the follow-up events. "
                 "Non-trivial = >= 3 handler invocations; distinct by JSON. Plus 150 FSM cases with exit "
                 "actions sending to their own FSM (model of C03) and 4 directed loops through library "
-                "blocks (Counter/OutputFunc.on_success, Input ping-pong, Counter/Repeat, Input/OutputFunc).")
+                "blocks (Counter/OutputFunc.on_success, Input ping-pong, Counter/Repeat, Input/OutputFunc) and 8 "
+                "directed external events with missing/misspelt parameters or unknown types sent to library blocks.")
     cases = [gen_case(run.rng) for _ in range(700 if run.tier == 'quick' else 24000)]
     cases += list(gen_small_exhaustive())
     for c in cases:
@@ -259,6 +260,7 @@ def check(run):
     res = common.standard_flow(run, spec, cases)
     check_fsm_guard(run)
     check_library_loops(run)
+    check_library_wrong_params(run)
     for c, o, ch in res:
         run.count('init_' + str(o['init_err']))
         for t in o['tops']:
@@ -369,6 +371,87 @@ def check_library_loops(run, only=None):
                           f"is_ready()={obs['ready']}", clause='library_loop:' + name, concrete=True)
 
 
+LIB_WRONG = [
+    # (name, block factory, event type, data, valid follow-up (etype, data), expected output after it)
+    ('counter_put_no_value', lambda: edzed.Counter('blk', initdef=3), 'put', {}, ('inc', {}), 4),
+    ('counter_put_misspelt', lambda: edzed.Counter('blk', initdef=3), 'put', {'valeu': 1}, ('put', {'value': 8}), 8),
+    ('counter_unknown', lambda: edzed.Counter('blk', initdef=3), 'increase', {}, ('dec', {}), 2),
+    ('input_put_no_value', lambda: edzed.Input('blk', initdef=3), 'put', {}, ('put', {'value': 5}), 5),
+    ('input_unknown', lambda: edzed.Input('blk', initdef=3), 'set', {'value': 1}, ('put', {'value': 5}), 5),
+    ('inputexp_put_no_value', lambda: edzed.InputExp('blk', duration=10, initdef=3), 'put', {}, ('put', {'value': 5}), 5),
+    ('timer_unknown', lambda: edzed.Timer('blk'), 'put', {'value': 1}, ('start', {}), True),
+    # listed as an open finding (known_findings.json, DESIGN 11.4): a 'put' lacking an item named in f_args
+    ('output_missing_item_func', lambda: edzed.OutputFunc('blk', func=lambda v: v, on_error=None), 'put', {},
+     ('put', {'value': 5}), False),
+    ('output_missing_item_async', lambda: edzed.OutputAsync('blk', coro=_noop_coro, mode='wait', on_error=None, stop_timeout=1),
+     'put', {}, ('put', {'value': 5}), False),
+    ('outputfunc_unknown', lambda: edzed.OutputFunc('blk', func=lambda v: v, on_error=None), 'write', {'value': 1},
+     ('put', {'value': 5}), False),
+]
+
+
+async def _noop_coro(value):
+    return value
+
+
+def check_library_wrong_params(run, only=None):
+    """'an external event with an unknown type or wrong parameters never leave a block locked and never
+    stop the simulation' - for the LIBRARY blocks' own handlers: the
+    event is refused (an exception for the sender, or a rejection), the simulation keeps running and the
+    block handles the next (valid) event."""
+    import asyncio
+    from . import vloop
+    for name, factory, etype, data, follow, want in LIB_WRONG:
+        if only is not None and name != only:
+            continue
+        obs = dict(raised=None, ready=None, error=None, follow=None, output=None, harness=None)
+
+        async def main(loop, factory=factory, etype=etype, data=data, follow=follow, obs=obs):
+            edzed.reset_circuit()
+            circuit = edzed.get_circuit()
+            blk = factory()
+            task = asyncio.create_task(circuit.run_forever())
+            await circuit.wait_init()
+            try:
+                edzed.ExtEvent(blk, etype).send(**data)
+            except Exception as err:             # noqa
+                obs['raised'] = type(err).__name__
+            await asyncio.sleep(0.01)
+            obs['ready'] = circuit.is_ready()
+            obs['error'] = None if circuit.error is None else repr(circuit.error)[:200]
+            try:
+                edzed.ExtEvent(blk, follow[0]).send(**follow[1])
+                obs['follow'] = 'accepted'
+            except Exception as err:             # noqa
+                obs['follow'] = type(err).__name__
+            await asyncio.sleep(0.01)
+            obs['output'] = blk.output if blk.output is not edzed.UNDEF else 'UNDEF'
+            try:
+                await circuit.shutdown()
+            except BaseException:                # noqa
+                pass
+        try:
+            vloop.run_virtual(main, wall_limit_s=10.0)
+        except BaseException as err:             # noqa
+            obs['harness'] = repr(err)[:200]
+        finally:
+            edzed.reset_circuit()
+        run.add_case(dict(library_wrong=name), True)
+        run.count('library_wrong')
+        ok = (obs['harness'] is None and obs['ready'] is True
+              and obs['error'] is None and obs['follow'] == 'accepted' and obs['output'] == want)
+        run.add_obligation(ok)
+        if not ok:
+            run.violation('monitor', dict(case=dict(library_wrong=name), observed=obs),
+                          f"external event '{etype}' with data {data} sent to a library block: sender got "
+                          f"{obs['raised']}, is_ready()={obs['ready']}, Circuit.error={obs['error']}, the valid "
+                          f"follow-up {follow} was {obs['follow']}, output afterwards {obs['output']!r} "
+                          f"(expected: simulation running, follow-up accepted, "
+                          f"output {want!r}); harness: {obs['harness']}",
+                          clause='library_wrong_params:' + ('output_missing_item' if name.startswith(
+                              'output_missing_item') else name), concrete=True)
+
+
 def check_fsm_guard(run):
     """The documented exception of the guard - one chained FSM transition - and its limits:
     an exit action that sends an event to its own FSM must be refused.  Uses the FSM model and
@@ -408,6 +491,8 @@ def replay(run, path):
         from . import c03
         return common.std_replay(run, c03.C03(), path)
     _, case = common.load_replay_case(path)
+    if isinstance(case, dict) and 'library_wrong' in case:
+        return common.directed_replay(run, path, lambda: check_library_wrong_params(run, case['library_wrong']))
     if isinstance(case, dict) and 'library_loop' in case:
         return common.directed_replay(run, path, lambda: check_library_loops(run, case['library_loop']))
     return common.std_replay(run, C11(), path)
